@@ -63,13 +63,18 @@ Print Assumptions c10_retries_refuted_unguarded_reset.
 Theorem c10_retries_refuted_reservation_dropped : ~ c10_retries_balanced_statement src_keep_retry.   (* proxy_src with direct_cancels_retry := false *)
 Proof. exact refuted_keep_retry. Qed.
 
-(* the code in the tree (switches read from the source on this run): for the family and every schedule, the sum of deltas stays
-   in {0, 1} on every prefix, equals the shared counter's change, is 1 exactly while this request holds a reservation, and is 0
-   once the stream is cleaned *)
+(* resource.Increase / Decrease count whatever the limit is, max == 0 (unlimited) included - read from the source on this run
+   (pkg/upstream/cluster/resource_manager.go); CanCreate admits everything while max == 0 *)
+Theorem c10_resource_counts_also_when_unlimited : res_counts_unlimited proxy_src = true.
+Proof. exact (eq_refl true). Qed.
+(* the code in the tree (switches read from the source on this run): for the family - breaker limits 0 (unlimited), 1, 2 - and every
+   schedule, the sum of deltas stays in {0, 1} on every prefix, equals the shared counter's change, is 1 exactly while this
+   request holds a reservation (= the number of reserved-and-not-released units of this request), and is 0 once the stream is
+   cleaned *)
 Theorem c10_retries_balanced_family : forall c, In c family -> forall sched, Forall allowed sched ->
   let s := final proxy_src c sched in let g := summ proxy_src c sched in
   0 <= g_res_min g /\ g_res g <= 1 /\ rc s = g_res g /\ (cleaned s = true -> g_res g = 0) /\
-  (c_max_retries c <> 0 -> (reserved s = true <-> g_res g = 1)).
+  (reserved s = true <-> g_res g = 1).
 Proof. exact c10_res_family. Qed.
 Print Assumptions c10_retries_balanced_family.
 
@@ -92,7 +97,7 @@ Proof. exact witness_timer_no_reset. Qed.
    raises it by exactly one: with max = m > 0 and a non-negative counter, the m-th simultaneous admission succeeds and the
    (m+1)-th is refused *)
 Theorem c10_threshold : forall src c code why s n,
-  0 < c_max_retries c -> retry s = Some (S n) -> retry_check c code why = true -> 0 <= rc s -> reserved s = false ->
+  0 < c_max_retries c -> retry s = Some (S n) -> retry_check src c code why s = true -> 0 <= rc s -> reserved s = false ->
   reset_guarded src = true ->
   let '(s', o, r) := rs_retry src c code why s in
   (rc s < c_max_retries c -> r = RShould /\ rc s' = rc s + 1 /\ reserved s' = true) /\
